@@ -27,7 +27,7 @@ import (
 
 type replicaCfg struct {
 	Issuer, RedisAddr, CookieName, CookieSecret, UpstreamURL, ProxyPrefix, PKCE string
-	Refresh, Expire                                                       time.Duration
+	Refresh, Expire                                                             time.Duration
 }
 
 // TestVerifReplicaChild is the child's entry point (VERIF_REPLICA_CFG set by the parent): build the proxy, listen, print the
